@@ -3,7 +3,7 @@
 // skip_bytes / write), driven over TCP with enforced segmentation. The read sizes
 // the server actually saw come from the cfg(memcrs_verif) hook, so the model is
 // stepped with exactly the chunks the implementation processed.
-use crate::gen::{hex, parse_resp};
+use crate::gen::{hex, op, parse_resp, Req};
 use crate::seq::{CaseCfg, Clock, Ev, Spy};
 use memcrs::cache::cache::{Cache, KeyType, Record};
 use memcrs::memcache::random_policy::RandomPolicy;
@@ -492,4 +492,101 @@ pub fn run_case(
     }
     d.server.stop();
     stuck
+}
+
+// ------------------------------------------------------------------ slow reader (C01 / C09 / C11)
+
+/// A client that does not read while the server answers several megabytes: every
+/// response must still arrive complete, in order and byte for byte once it does read.
+/// (A server that writes as much as the socket takes and drops the rest shows only here.)
+/// Returns one line per scenario: "SLOW <id> ok" or "SLOW <id> <what differs>".
+pub fn slow_reader_probe(monitor: &mut String) {
+    let sizes: [usize; 3] = [70_000, 1_500_000, 6_000_000];
+    let server = Server::start(32 << 20, None, 16, 60, 2);
+    for (n, size) in sizes.iter().enumerate() {
+        let id = format!("slow-{}", size);
+        let mut sock = match TcpStream::connect_timeout(&server.addr, Duration::from_secs(2)) {
+            Ok(s) => s,
+            Err(e) => {
+                let _ = writeln!(monitor, "SLOW {} connect_failed_{}", id, e.to_string().replace(' ', "_"));
+                continue;
+            }
+        };
+        sock.set_nodelay(true).unwrap();
+        unsafe {
+            use std::os::unix::io::AsRawFd;
+            let sz: libc::c_int = 65536;
+            libc::setsockopt(sock.as_raw_fd(), libc::SOL_SOCKET, libc::SO_RCVBUF, &sz as *const _ as *const libc::c_void, 4);
+        }
+        let key = format!("big{}", n).into_bytes();
+        let val: Vec<u8> = (0..*size).map(|i| (i % 251) as u8).collect();
+        let set = crate::gen::set_like(op::SET, &key, &val, 0xabcd, 0).bytes();
+        sock.set_write_timeout(Some(Duration::from_secs(20))).unwrap();
+        if sock.write_all(&set).is_err() {
+            let _ = writeln!(monitor, "SLOW {} set_not_accepted", id);
+            continue;
+        }
+        let mut rx = Vec::new();
+        let mut buf = vec![0u8; 1 << 16];
+        sock.set_read_timeout(Some(Duration::from_millis(200))).unwrap();
+        let read_until = |sock: &mut TcpStream, rx: &mut Vec<u8>, buf: &mut Vec<u8>, want: usize, secs: u64| {
+            let t0 = Instant::now();
+            while rx.len() < want && t0.elapsed() < Duration::from_secs(secs) {
+                match sock.read(buf) {
+                    Ok(0) => break,
+                    Ok(k) => rx.extend_from_slice(&buf[..k]),
+                    Err(_) => {}
+                }
+            }
+        };
+        read_until(&mut sock, &mut rx, &mut buf, 24, 20);
+        let cas = match parse_resp(&rx) {
+            Some((f, _)) if f.status == 0 => f.cas,
+            _ => {
+                let _ = writeln!(monitor, "SLOW {} set_not_acknowledged", id);
+                continue;
+            }
+        };
+        rx.clear();
+        // three hits and a noop, pipelined; nothing is read for a while
+        let mut req = Vec::new();
+        req.extend_from_slice(&Req::new(op::GET).key(&key).opaque(1).bytes());
+        req.extend_from_slice(&Req::new(op::GETK).key(&key).opaque(2).bytes());
+        req.extend_from_slice(&Req::new(op::GET).key(&key).opaque(3).bytes());
+        req.extend_from_slice(&Req::new(op::NOOP).opaque(4).bytes());
+        let _ = sock.write_all(&req);
+        std::thread::sleep(Duration::from_millis(400));
+        let hit = |opcode: u8, opaque: u32, with_key: bool| -> Vec<u8> {
+            let klen = if with_key { key.len() } else { 0 };
+            let mut f = vec![0x81, opcode];
+            f.extend_from_slice(&(klen as u16).to_be_bytes());
+            f.push(4);
+            f.push(0);
+            f.extend_from_slice(&0u16.to_be_bytes());
+            f.extend_from_slice(&((4 + klen + val.len()) as u32).to_be_bytes());
+            f.extend_from_slice(&opaque.to_be_bytes());
+            f.extend_from_slice(&cas.to_be_bytes());
+            f.extend_from_slice(&0xabcdu32.to_be_bytes());
+            if with_key {
+                f.extend_from_slice(&key);
+            }
+            f.extend_from_slice(&val);
+            f
+        };
+        let mut expect = Vec::new();
+        expect.extend_from_slice(&hit(op::GET, 1, false));
+        expect.extend_from_slice(&hit(op::GETK, 2, true));
+        expect.extend_from_slice(&hit(op::GET, 3, false));
+        let mut noop = vec![0x81, op::NOOP, 0, 0, 0, 0, 0, 0, 0, 0, 0, 0];
+        noop.extend_from_slice(&4u32.to_be_bytes());
+        noop.extend_from_slice(&0u64.to_be_bytes());
+        expect.extend_from_slice(&noop);
+        read_until(&mut sock, &mut rx, &mut buf, expect.len(), 30);
+        if rx == expect {
+            let _ = writeln!(monitor, "SLOW {} ok", id);
+        } else {
+            let first = rx.iter().zip(expect.iter()).position(|(a, b)| a != b).unwrap_or(rx.len().min(expect.len()));
+            let _ = writeln!(monitor, "SLOW {} received_{}_of_{}_bytes_first_difference_at_{}", id, rx.len(), expect.len(), first);
+        }
+    }
 }
